@@ -1,6 +1,5 @@
 (* feComposite arithmetic keeps pixels valid: every stored colour channel is at most the stored alpha,
-   for all coefficients k1..k4 and ALL input pixels, provided the alpha computation is not NaN (NaN needs a
-   non-finite coefficient, e.g. k1 = "1e40"; see the remark at the end).  The proof is by monotonicity
+   for ALL coefficients k1..k4 (infinite and NaN ones included) and ALL input pixels.  The proof is by monotonicity
    of binary32 rounding (Flocq), not by enumeration. *)
 From RV Require Import Model.F32.
 From RV Require Import Gen.PixelTables.
@@ -167,21 +166,38 @@ Qed.
 Lemma px0_valid' : valid_px px0.
 Proof. unfold valid_px, px0; cbn; lia. Qed.
 
-Theorem arithmetic_valid : forall k1 k2 k3 k4 p1 p2,
-  is_nan (ar_result k1 k2 k3 k4 (ar_norm (pa p1)) (ar_norm (pa p2))) = false ->
-  valid_px (px_arithmetic k1 k2 k3 k4 p1 p2).
+(* composite.rs `calc` as it is now: a non-finite result (overflowed sum, or NaN from an infinite coefficient)
+   is replaced by `max` (positive) or 0.0 before f32_bound *)
+Lemma ar_bound_alpha : forall ra : f32,
+  is_finite (ar_bound ra c1) = true /\ (0 <= B2R (ar_bound ra c1) <= 1)%R.
 Proof.
-  intros k1 k2 k3 k4 p1 p2 Hn. unfold px_arithmetic.
+  intros ra. unfold ar_bound, ffinite. fold c0.
+  destruct (is_finite ra) eqn:F; cbn [negb].
+  - apply alpha_range. destruct ra; try discriminate F; reflexivity.
+  - destruct (fgt ra c0).
+    + rewrite (proj1 c1_val). split; [exact (proj2 c1_val)|lra].
+    + rewrite (proj1 B2R_c0). split; [exact (proj2 B2R_c0)|lra].
+Qed.
+
+Lemma ar_bound_colour : forall res a : f32, is_finite a = true -> (0 <= B2R a <= 1)%R ->
+  to_u8 (fmul (ar_bound res a) c255) <= to_u8 (fmul a c255).
+Proof.
+  intros res a Fa Ra. unfold ar_bound, ffinite. fold c0.
+  destruct (is_finite res) eqn:F; cbn [negb].
+  - apply colour_le_alpha; assumption.
+  - destruct (fgt res c0); [lia|].
+    rewrite store_c0. pose proof (to_u8_byte (fmul a c255)) as B. unfold is_byte in B. lia.
+Qed.
+
+(* every coefficient (finite, infinite, NaN) and every pair of input pixels *)
+Theorem arithmetic_valid : forall k1 k2 k3 k4 p1 p2, valid_px (px_arithmetic k1 k2 k3 k4 p1 p2).
+Proof.
+  intros k1 k2 k3 k4 p1 p2. unfold px_arithmetic.
   set (a := ar_calc k1 k2 k3 k4 (pa p1) (pa p2) ar_alpha_max).
   destruct (approx_zero4 a); [apply px0_valid'|].
   assert (Ha : is_finite a = true /\ (0 <= B2R a <= 1)%R).
-  { unfold a, ar_calc, ar_bound, ar_alpha_max. apply (alpha_range _ Hn). }
+  { unfold a, ar_calc, ar_alpha_max. apply ar_bound_alpha. }
   destruct Ha as [Fa Ra].
-  unfold valid_px. cbn [pr pg pb pa]. unfold ar_store_c, ar_store_a, ar_calc, ar_bound.
-  repeat split; apply (colour_le_alpha _ a Fa Ra).
+  unfold valid_px. cbn [pr pg pb pa]. unfold ar_store_c, ar_store_a, ar_calc.
+  repeat split; apply (ar_bound_colour _ a Fa Ra).
 Qed.
-
-(* NaN in the alpha computation needs a non-finite coefficient: products of a finite coefficient with values in
-   [0, 1] are finite, and a sum that has overflowed to an infinity only meets finite addends afterwards.  usvg does
-   accept such coefficients (k1 = "1e40" parses to +inf, DESIGN sect. 5 F12 / F17); for valid premultiplied inputs
-   every NaN path was observed to store (0, 0, 0, 0) - covered by the system oracle, not by this theorem. *)
